@@ -299,6 +299,26 @@ class C17Proj(ProxyProjector):
         return any(e.startswith('cmd') for e in evs)
 
 
+class C05PxProj(ProxyProjector):
+    """racing deploys: which of them succeed, and who answers for the host afterwards"""
+    def ev(self, e):
+        return ev_gen(e) or (e if e.startswith('cmd ') else None)
+
+    def interesting(self, kind, op, evs):
+        return any('res=hostInUse' in e for e in evs)
+
+
+class C17CtlProj(ControlProjector):
+    """which targets are still being probed after every command of a sequential history"""
+    def step(self, kind, op, a, b):
+        self.track(kind, op, a, b)
+        if kind == 'probing':
+            return a, b, self.last_cmd in ('remove', 'deploy', 'rollout-deploy') 
+        if kind in COMMANDS:
+            return res_okerr(a), res_okerr(b), False
+        return None
+
+
 def proxy(projector, n_quick=160, n_thorough=20000):
     return dict(engine='proxy', n_quick=n_quick, n_thorough=n_thorough, projector=projector, quick_shards=4)
 
@@ -356,7 +376,7 @@ PROPS = {
                      "ends on resume, stop or a timer."),
     'C09': dict(engines=[proxy(C09Proj)], assumptions=PROXY_ASSUME,
                 rule=RULE_PROXY + "Compared for C09: exactly which target serves each request and every probe sent. Non-trivial = a request is served by a target."),
-    'C17': dict(engines=[proxy(C17Proj)], assumptions=PROXY_ASSUME + ["real elapsed time (scheduler latency, file I/O, lock contention) is outside the "
+    'C17': dict(engines=[proxy(C17Proj), control(C17CtlProj, 120, 4000)], assumptions=PROXY_ASSUME + ["real elapsed time (scheduler latency, file I/O, lock contention) is outside the "
                 "model: the virtual clock measures only what the code waits for"],
                 rule=RULE_PROXY + "Compared for C17: the virtual time at which every command returns and every probe sent (so probes after "
                      "remove / failed deploy / redeploy show). Non-trivial = a command returns."),
@@ -391,7 +411,7 @@ PROPS = {
                      "redirect targets with percent-encoded paths are covered by the rewrite engine (C13) model of net/url"],
     ),
     'C08': dict(
-        engines=[control(C08Proj, 200, 8000)],
+        engines=[control(C08Proj, 200, 8000), proxy(C07Proj, 120, 10000)],
         rule=RULE_CONTROL + "for C08 when a request is answered 503 with a non-empty operator message; messages include markup, template "
              "syntax, quotes, entities and non-ASCII text, with and without a custom 503 page; the text inserted in the page is compared "
              "byte for byte with the model's escapeHTML",
@@ -432,7 +452,7 @@ PROPS = {
                      "ownership is unique (C05) for the order-independence clause"],
     ),
     'C05': dict(
-        engines=[control(C05Proj)],
+        engines=[control(C05Proj), proxy(C05PxProj, 120, 10000)],
         rule=RULE_CONTROL + "for C05 when at least one deploy is rejected with a host conflict",
         assumptions=["commands are serialised by the router lock at the install step (T1 skeleton of installService)"],
     ),
